@@ -22,6 +22,8 @@ func init() {
 		ID: "C11",
 		Rule: "cases: gteq (pairing values e(aG1,bG2) vs e(cG1,dG2), equal iff ab=cd), <g>mul/add/sub/neg/eq (elements from scalars {0,1,2,r-1,r,r+1,(r±1)/2,2^256-1,random}, sums incl. a+b≡0 and a=b), scenc; " +
 			"g1dec/g2dec/gtdec/scdec on byte strings mutated around valid encodings (every length 0..2·size, single-bit flips, coordinate swaps, x+kp, (p,0)-style identities, negation, off-curve, on-twist-outside-subgroup, tags, random); " +
+			"after EVERY successful decode the decoded object is computed with (Add/Sub/Neg/Mul against math/big; Equal and pairings against (Q+B)-B, a representative built by arithmetic; google pairing on a sample; bls.Verify under decoded keys) and its Jacobian form (z = t = 1 / identity) is read through the verif hook; " +
+			"<g>rep (two representatives of one element / of neighbouring elements built by Add/Double/Mul/Neg/Clone chains that are never normalised: Equal both ways, encodings, pairings), par (ONE shared non-normalised object, n goroutines: MarshalBinary / Equal / Pair at once); " +
 			"<g>into (decode into a used receiver), seq (one receiver through prior states {fresh, Null, Base, Mul, successful decode, failed decode} then every special encoding by UnmarshalBinary and UnmarshalFrom; sequences [P, identity, Q]), <g>strm (MarshalTo→UnmarshalFrom with trailing data). non-trivial = every case except the unmodified encoding of the identity/generator; distinct = distinct case line",
 		Gen:  gen,
 		Exec: exec,
@@ -179,20 +181,51 @@ func group(g string) kyber.Group {
 	return suite.GT()
 }
 
-func decodeInto(pt kyber.Point, b []byte) (string, []byte) {
+// decodeInto: UnmarshalBinary into pt, then re-encode; extra = the text describing the decoded OBJECT
+// (form of its Jacobian representation and the encoding of 3·Q + B computed with it, see use.go)
+func decodeInto(g string, pt kyber.Point, b []byte) (kind string, enc []byte, extra string) {
 	if err := pt.UnmarshalBinary(b); err != nil {
-		return errKind(err), nil
+		return errKind(err), nil, ""
+	}
+	return reencode(g, pt)
+}
+
+func reencode(g string, pt kyber.Point) (kind string, enc []byte, extra string) {
+	if g != "gt" {
+		extra = " st=" + repState(g, pt)
 	}
 	enc, err := pt.MarshalBinary()
 	if err != nil {
-		return "marshal-error", nil
+		return "marshal-error", nil, ""
 	}
-	return "ok", enc
+	if g != "gt" {
+		extra += " u=" + h.Hex(useValue(g, pt))
+	}
+	return "ok", enc, extra
 }
 
-func show(kind string, enc []byte) string {
+// useOracle: after the byte-level clauses hold (judge clean) the decoded object is computed with
+func useOracle(g string, pt kyber.Point, kind string, ref refRes, extra string, deep bool) string {
+	if kind != "ok" || ref.kind != "ok" {
+		return ""
+	}
+	// behaviour first (what the property is about), then the representation invariant behind it
+	if o := useDecoded(g, pt, ref.enc, deep || deepSample(ref.enc)); o != "" {
+		return o
+	}
+	if g != "gt" {
+		st := strings.TrimPrefix(strings.Fields(extra)[0], "st=")
+		ident := isZero(ref.enc) || len(ref.enc) == 1
+		if (st != "n" && st != "i") || (st == "i") != ident {
+			return fmt.Sprintf("%s-decoded-representation: after a successful decode of %s… the Jacobian representation is %s (expected %s: z = t = 1 for a point, (0,1,0,0) for the identity)", g, h.Hex(ref.enc[:1]), st, map[bool]string{true: "i", false: "n"}[ident])
+		}
+	}
+	return ""
+}
+
+func show(kind string, enc []byte, extra string) string {
 	if kind == "ok" {
-		return "ok " + h.Hex(enc)
+		return "ok " + h.Hex(enc) + extra
 	}
 	return "err " + kind
 }
@@ -242,11 +275,23 @@ func refEnc(g string, k *big.Int) []byte {
 	return bnref.Enc2(bnref.Mul2(kk, bnref.G2Gen()))
 }
 
+// lastRep: was the representative handed to the last checkElement a Jacobian one (z not in {0,1})? (histogram only)
+var lastRep string
+
 // checkElement: the clauses of C11 about one element P whose discrete log (mod r) the harness knows.
-func checkElement(g string, P kyber.Point, dlog *big.Int) (enc []byte, rt bool, oracle string) {
+func checkElement(g string, P kyber.Point, dlog *big.Int) (enc []byte, rt bool, st string, oracle string) {
+	nonnorm := nonNormal(g, P)
+	var pairP kyber.Point // with the never-normalised representative
+	if g == "g1" {
+		pairP = suite.Pair(P, g2Base)
+	} else {
+		pairP = suite.Pair(g1Base, P)
+	}
+	P0 := group(g).Point().Set(P) // a copy of the representative (G2 MarshalBinary normalises its receiver)
+	lastRep = map[bool]string{true: "jac", false: "aff"}[nonnorm]
 	enc, err := P.MarshalBinary()
 	if err != nil {
-		return nil, false, g + "-marshal-error: " + err.Error()
+		return nil, false, "", g + "-marshal-error: " + err.Error()
 	}
 	want := refEnc(g, dlog)
 	if !bytes.Equal(enc, want) {
@@ -262,8 +307,9 @@ func checkElement(g string, P kyber.Point, dlog *big.Int) (enc []byte, rt bool, 
 		if oracle == "" {
 			oracle = g + "-roundtrip-rejected: " + errKind(err)
 		}
-		return enc, false, oracle
+		return enc, false, "", oracle
 	}
+	st = "st=" + repState(g, Q)
 	enc2, _ := Q.MarshalBinary()
 	rt = Q.Equal(P) && P.Equal(Q) && bytes.Equal(enc, enc2)
 	if !rt && oracle == "" {
@@ -290,7 +336,29 @@ func checkElement(g string, P kyber.Point, dlog *big.Int) (enc []byte, rt bool, 
 			oracle = g + "-encoding-differs-google: " + h.Hex(ge)
 		}
 	}
-	return enc, rt, oracle
+	// the decoded object must BEHAVE as the original: arithmetic, Equal, pairings, a BLS round
+	if oracle == "" {
+		ref, _ := refFor(g, want)
+		oracle = useOracle(g, Q, "ok", ref, st, true)
+	}
+	if oracle == "" {
+		oracle = sameBehaviour(g, P0, Q)
+	}
+	if oracle == "" {
+		var pairQ kyber.Point
+		if g == "g1" {
+			pairQ = suite.Pair(Q, g2Base)
+		} else {
+			pairQ = suite.Pair(g1Base, Q)
+		}
+		if !pairQ.Equal(pairP) || !bytes.Equal(mustEnc(pairQ), mustEnc(pairP)) {
+			oracle = g + "-roundtrip-behaviour-differs: Pair with decode(encode P) differs from Pair with P"
+		}
+	}
+	if oracle == "" && g == "g2" {
+		oracle = blsRound(new(big.Int).Mod(dlog, bnref.Rn), Q)
+	}
+	return enc, rt, st, oracle
 }
 
 func b2i(b bool) int {
@@ -309,12 +377,16 @@ func exec(line string) (res h.Result) {
 	case op == "g1dec" || op == "g2dec" || op == "gtdec":
 		g := op[:2]
 		b := h.UnHex(w[1])
-		kind, enc := decodeInto(group(g).Point(), b)
+		pt := group(g).Point()
+		kind, enc, extra := decodeInto(g, pt, b)
 		ref, size := refFor(g, b)
-		res.Impl = show(kind, enc)
+		res.Impl = show(kind, enc, extra)
 		res.Oracle = judge(g, size, b, kind, enc, ref)
 		if res.Oracle == "" {
 			res.Oracle = crossCheck(g, b, ref)
+		}
+		if res.Oracle == "" {
+			res.Oracle = useOracle(g, pt, kind, ref, extra, false)
 		}
 		res.Class = op + "-" + strings.SplitN(kind, ":", 2)[0]
 		if kind == "ok" && bytes.Equal(b, enc) && (bytes.Equal(b, refEnc("g1", big.NewInt(1))) || bytes.Equal(b, refEnc("g2", big.NewInt(1))) || isZero(b)) {
@@ -330,7 +402,7 @@ func exec(line string) (res h.Result) {
 			enc, _ = s.MarshalBinary()
 		}
 		ref, size := refFor("sc", b)
-		res.Impl = show(kind, enc)
+		res.Impl = show(kind, enc, "")
 		res.Oracle = judge("scalar", size, b, kind, enc, ref)
 		res.Class = op + "-" + kind
 	case op == "scenc":
@@ -358,13 +430,16 @@ func exec(line string) (res h.Result) {
 		g := op[:2]
 		k, b := h.BigDec(w[1]), h.UnHex(w[2])
 		pt := elem(g, k)
-		kind, enc := decodeInto(pt, b)
-		kind2, enc2 := decodeInto(pt, b)
+		kind, enc, extra := decodeInto(g, pt, b)
+		kind2, enc2, extra2 := decodeInto(g, pt, b)
 		ref, size := refFor(g, b)
-		res.Impl = show(kind, enc)
+		res.Impl = show(kind, enc, extra)
 		res.Oracle = judge(g, size, b, kind, enc, ref)
-		if res.Oracle == "" && (kind != kind2 || !bytes.Equal(enc, enc2)) {
-			res.Oracle = g + "-decode-depends-on-receiver: second decode into the same receiver gives " + show(kind2, enc2)
+		if res.Oracle == "" && (kind != kind2 || !bytes.Equal(enc, enc2) || extra != extra2) {
+			res.Oracle = g + "-decode-depends-on-receiver: second decode into the same receiver gives " + show(kind2, enc2, extra2)
+		}
+		if res.Oracle == "" {
+			res.Oracle = useOracle(g, pt, kind, ref, extra, false)
 		}
 		if res.Oracle != "" {
 			res.Oracle = strings.Replace(res.Oracle, g+"-", g+"-used-receiver-", 1)
@@ -374,9 +449,10 @@ func exec(line string) (res h.Result) {
 		g := op[:2]
 		k := h.BigDec(w[1])
 		P := elem(g, k)
-		enc, rt, o := checkElement(g, P, new(big.Int).Mod(k, two256))
-		res.Impl = fmt.Sprintf("ok %s rt=%d", h.Hex(enc), b2i(rt))
+		enc, rt, st, o := checkElement(g, P, new(big.Int).Mod(k, two256))
+		res.Impl = fmt.Sprintf("ok %s rt=%d %s", h.Hex(enc), b2i(rt), st)
 		res.Oracle = o
+		res.Class = op + "-" + lastRep
 		res.Nontrivial = k.Sign() != 0 && k.Cmp(big.NewInt(1)) != 0
 	case op == "g1add" || op == "g2add" || op == "g1sub" || op == "g2sub":
 		g := op[:2]
@@ -392,18 +468,20 @@ func exec(line string) (res h.Result) {
 			d.Sub(a, b)
 		}
 		d.Mod(d, bnref.Rn)
-		enc, rt, o := checkElement(g, P, d)
-		res.Impl = fmt.Sprintf("ok %s rt=%d", h.Hex(enc), b2i(rt))
+		enc, rt, st, o := checkElement(g, P, d)
+		res.Impl = fmt.Sprintf("ok %s rt=%d %s", h.Hex(enc), b2i(rt), st)
 		res.Oracle = o
+		res.Class = op + "-" + lastRep
 	case op == "g1neg" || op == "g2neg":
 		g := op[:2]
 		a := h.BigDec(w[1])
 		P := group(g).Point().Neg(elem(g, a))
 		d := new(big.Int).Neg(a)
 		d.Mod(d, bnref.Rn)
-		enc, rt, o := checkElement(g, P, d)
-		res.Impl = fmt.Sprintf("ok %s rt=%d", h.Hex(enc), b2i(rt))
+		enc, rt, st, o := checkElement(g, P, d)
+		res.Impl = fmt.Sprintf("ok %s rt=%d %s", h.Hex(enc), b2i(rt), st)
 		res.Oracle = o
+		res.Class = op + "-" + lastRep
 	case op == "g1eq" || op == "g2eq":
 		// P = aG + bG, Q = cG + dG : two different computations (different Jacobian representatives)
 		g := op[:2]
@@ -423,6 +501,10 @@ func exec(line string) (res h.Result) {
 			res.Oracle = fmt.Sprintf("%s-equal-vs-bytes: Equal=%v, encodings equal=%v", g, eq, same)
 		}
 		res.Class = fmt.Sprintf("%s-%d", op, b2i(want))
+	case op == "g1rep" || op == "g2rep" || op == "gtrep":
+		execRep(op[:2], w, &res)
+	case op == "par":
+		execPar(w, &res)
 	case op == "seq":
 		// seq <g1|g2|gt> <step,step,...>: ONE receiver object taken through a sequence of states.
 		// steps: n = Null(), b = Base(), m<k> = Mul(k, nil), d<hex> = UnmarshalBinary, f<hex> = UnmarshalFrom.
@@ -440,25 +522,24 @@ func exec(line string) (res h.Result) {
 				pt.Mul(scalar(h.BigDec(st[1:])), nil)
 			case 'd', 'f':
 				b := h.UnHex(st[1:])
-				var kind string
+				var kind, extra string
 				var enc []byte
 				n := len(b)
 				if st[0] == 'd' {
-					kind, enc = decodeInto(pt, b)
+					kind, enc, extra = decodeInto(g, pt, b)
 				} else {
 					var err error
 					n, err = pt.UnmarshalFrom(bytes.NewReader(b))
 					if err != nil {
 						kind = errKind(err)
 					} else {
-						kind = "ok"
-						enc, _ = pt.MarshalBinary()
+						kind, enc, extra = reencode(g, pt)
 					}
 				}
 				if st[0] == 'd' {
-					outs = append(outs, show(kind, enc))
+					outs = append(outs, show(kind, enc, extra))
 				} else {
-					outs = append(outs, fmt.Sprintf("n=%d %s", n, show(kind, enc)))
+					outs = append(outs, fmt.Sprintf("n=%d %s", n, show(kind, enc, extra)))
 				}
 				if res.Oracle == "" && (st[0] == 'd' || (kind == "ok" && n <= len(b))) {
 					in := b
@@ -466,7 +547,11 @@ func exec(line string) (res h.Result) {
 						in = b[:n]
 					}
 					ref, size := refFor(g, in)
-					if o := judge(g, size, in, kind, enc, ref); o != "" {
+					o := judge(g, size, in, kind, enc, ref)
+					if o == "" {
+						o = useOracle(g, pt, kind, ref, extra, false)
+					}
+					if o != "" {
 						res.Oracle = strings.Replace(o, g+"-", g+"-reused-receiver-", 1) + fmt.Sprintf(" (step %d of %s)", i, h.OneLine(w[2])[:min(len(w[2]), 80)])
 					}
 				}
@@ -522,12 +607,20 @@ func exec(line string) (res h.Result) {
 			res.Impl = fmt.Sprintf("wrote=%d n=%d err %s left=%d", nw, n, errKind(err), left)
 			res.Oracle = fmt.Sprintf("%s-stream-roundtrip: MarshalTo wrote %d bytes, UnmarshalFrom: %s", g, nw, errKind(err))
 		} else {
-			enc, _ := Q.MarshalBinary()
-			res.Impl = fmt.Sprintf("wrote=%d n=%d ok %s left=%d", nw, n, h.Hex(enc), left)
+			_, enc, extra := reencode(g, Q)
+			res.Impl = fmt.Sprintf("wrote=%d n=%d ok %s%s left=%d", nw, n, h.Hex(enc), extra, left)
 			if !Q.Equal(P) {
 				res.Oracle = g + "-stream-roundtrip: decoded element differs"
 			} else if left != len(tail) || n != nw {
 				res.Oracle = fmt.Sprintf("%s-stream-bleed: wrote %d, consumed %d, %d of %d trailing bytes left", g, nw, n, left, len(tail))
+			} else {
+				want := refEnc(g, new(big.Int).Mod(k, two256))
+				ref, _ := refFor(g, want)
+				if o := useOracle(g, Q, "ok", ref, extra, false); o != "" {
+					res.Oracle = strings.Replace(o, g+"-", g+"-stream-", 1)
+				} else if o := sameBehaviour(g, P, Q); o != "" {
+					res.Oracle = strings.Replace(o, g+"-", g+"-stream-", 1)
+				}
 			}
 		}
 		if res.Oracle != "" && g == "g2" && new(big.Int).Mod(k, bnref.Rn).Sign() == 0 {
@@ -543,12 +636,15 @@ func exec(line string) (res h.Result) {
 		if err != nil {
 			res.Impl = fmt.Sprintf("n=%d err %s", n, errKind(err))
 		} else {
-			enc, _ := Q.MarshalBinary()
-			res.Impl = fmt.Sprintf("n=%d ok %s", n, h.Hex(enc))
+			_, enc, extra := reencode(g, Q)
+			res.Impl = fmt.Sprintf("n=%d ok %s%s", n, h.Hex(enc), extra)
 			size := map[string]int{"g1": 64, "g2": 129, "gt": 384}[g]
 			if n <= len(b) {
 				ref, _ := refFor(g, b[:n])
 				res.Oracle = judge(g, size, b[:n], "ok", enc, ref)
+				if res.Oracle == "" {
+					res.Oracle = useOracle(g, Q, "ok", ref, extra, false)
+				}
 			}
 		}
 		res.Class = op
